@@ -60,7 +60,7 @@ def run(ctx):
         parts.append(("sim", cfg(8, 0, ALL, '{"*"}', lits='{"-1", "2"}'), "num=1200", 9))
         parts.append(("simforms", cfg(5, 3, ALL, SUB, "{1, 2}"), "num=60", 6))
         parts.append(("levels7", cfg(7, 0, '{"*", "+", "=", "AND", "OR"}', '{"*"}'), None, None))
-        parts.append(("long", cfg(300, 0, ALL, '{"*"}', inv=False), "num=6", 301))
+        parts.append(("long", cfg(240, 0, ALL, '{"*"}', inv=False), "num=6", 241))      # the judge's JSON reader stops at nesting depth 255
     for name, text, sim, depth in parts:
         cf, r = gen(ctx, text, name, simulate=sim, depth=depth, workers=1 if name == "long" else 4)   # long lines: one writer
         if sim:
